@@ -14,6 +14,7 @@ from pandera.api.polars.utils import get_lazyframe_column_names
 from pandera.backends.base import ColumnInfo, CoreCheckResult
 from pandera.backends.polars.base import PolarsSchemaBackend
 from pandera.config import ValidationDepth, ValidationScope, get_config_context
+from pandera.constants import CHECK_OUTPUT_KEY
 from pandera.errors import (
     ParserError,
     SchemaDefinitionError,
@@ -587,6 +588,7 @@ class DataFrameSchemaBackend(PolarsSchemaBackend):
         passed = True
         message = None
         failure_cases = None
+        check_output = None
 
         if not schema.unique:
             return CoreCheckResult(
@@ -608,7 +610,11 @@ class DataFrameSchemaBackend(PolarsSchemaBackend):
             ]
             duplicates = check_obj.select(subset).collect().is_duplicated()
             if duplicates.any():
-                failure_cases = check_obj.filter(duplicates)
+                # materialize the failure cases and report a row-wise check
+                # output, like the column-level uniqueness check does: the
+                # lazy error report and drop_invalid_rows need both.
+                failure_cases = check_obj.filter(duplicates).collect()
+                check_output = duplicates.not_().alias(CHECK_OUTPUT_KEY).to_frame()
 
                 passed = False
                 message = f"columns '{*subset,}' not unique:\n{failure_cases}"
@@ -616,6 +622,7 @@ class DataFrameSchemaBackend(PolarsSchemaBackend):
         return CoreCheckResult(
             passed=passed,
             check="multiple_fields_uniqueness",
+            check_output=check_output,
             reason_code=SchemaErrorReason.DUPLICATES,
             message=message,
             failure_cases=failure_cases,
